@@ -39,7 +39,13 @@ class C15(Check):
             "(receiver secret, sender secret), the long-used key name rolled over, random histories, incoming on the "
             "scripted connection and outgoing through Transfer.Out in a dns.Server on an in-memory listener whose peer is "
             "the harness's own RFC 8945 signer/verifier or Transfer.In; the query written by every Transfer.In is verified "
-            "with the configured secret. A case is the "
+            "with the configured secret; transfers on a connection that honours the read deadline in force at every "
+            "envelope read (SetReadDeadline / SetDeadline calls recorded with the moment they are made) while the sender "
+            "paces its envelopes (each arrives less than ReadTimeout after the one before it, the sum well above "
+            "ReadTimeout) and / or the consumer of the channel pauses between items (also longer than ReadTimeout): every "
+            "composition of an AXFR, an AXFR-style IXFR and a difference-sequence stream, TSIG off / on, uniform, "
+            "per-envelope and random patterns, ReadTimeout 80 / 120 ms, left zero (2 s default) and above the default "
+            "(3 s), verdict independent of scheduling. A case is the "
             "(kind, tsig, query, read list) tuple; "
             "non-trivial when at least two reads; distinct by hash of (function, arguments, output).")
     partial = [
